@@ -33,6 +33,9 @@ MOLES_WALL = 1e-9           # + this * N: cells where the external potential is 
 OBS_RTOL = {"surface_tension": 2e-6, "grand_potential": 1e-5, "interfacial_tension": 1e-4, "adsorption": 1e-5}
 # calibration (pinned tree, tol 1e-11, seeds 1-3 quick + thorough): worst relative spread between chains 1.3e-7 (surface tension),
 # 4.8e-7 (grand potential), 2.5e-6 (interfacial tension = Omega + pV, a difference of 5x larger numbers), 5.0e-7 (adsorption)
+CROSS_RTOL = 1e-5           # surface tension of one planar system (same box and grid) across initial profiles (tanh / pDGT) AND
+                            # specifications (chemical potential / fixed equimolar surface / moles_from_profile); worst seen 2.1e-7
+ENTRY_RTOL = 1e-12          # particle number fixed by an entry point vs integrate_comp of the profile it returns
 TIGHT_TOL = 1e-11           # observables are compared between chains whose last stage has at most this tolerance
 
 
@@ -63,7 +66,8 @@ def stage_key(s):
 
 def solve_key(s):
     return {"system": s["system"], "specification": ["ChemicalPotential", "Moles", "TotalMoles"][s["spec_kind"]],
-            "spec_N": s["spec_N"], "chain": [stage_key(x) for x in s["stages"]], "debug": s["debug"]}
+            "spec_N": s["spec_N"], "chain": [stage_key(x) for x in s["stages"]], "debug": s["debug"],
+            **({"entry_point": s["entry"]} if s.get("entry") else {})}
 
 
 def run(ctx):
@@ -178,6 +182,64 @@ def run(ctx):
         samples.append({"small_profile": {"name": e["name"], "geometry": e["geometry"], "segments": e["segments"], "grid": e["grid"],
                                           "rho_b": e["rho_b"], "evals": [{k: ev.get(k) for k in ("kind", "N", "res_bulk", "res_norm")} for ev in e["evals"]]}})
 
+    # ------------------------------------------------------------------ Part E: specifications set by the library's entry points
+    n_e = 0
+    for e in impl.get("entry_cases", []):
+        r = out_of(e["file"])
+        ft = failed_tags(r["out"])
+        n_e += len(e["tags"])
+        obligations += len(e["tags"])
+        want = vec(e["N_of_initial_profile"])
+        got = vec(e["N_probed"])
+        if e["kind"] == 2:
+            want = [sum(want)]
+        numeric_bad = e["kind"] != 0 and (len(got) != len(want) or any(not abs(a - b) <= ENTRY_RTOL * abs(b) for a, b in zip(got, want)))
+        if not e["tags"]:
+            V.violation(ctx, "calculate_bulk_density of the specification set by %s failed (%s)" % (e["entry"], e["name"]),
+                        {"broken": "implementation: entry point specification", "case": e}, found_input=True)
+        elif r["rc"] == 0 and not numeric_bad:
+            discharged += len(e["tags"])
+        elif ft or numeric_bad:
+            discharged += len(e["tags"]) - len(ft)
+            V.violation(ctx, "%s (%s): the specification it sets fixes N = %s, but the profile it returns contains %s particles "
+                        "(the model's specification of the initial profile reproduces %d of %d probes)"
+                        % (e["entry"], e["name"], got, want, len(e["tags"]) - len(ft), len(e["tags"])),
+                        {"broken": "correspondence: SpecC18.{moles,total_moles}_from_profile of the initial profile vs the specification object "
+                                   "set by the entry point (gen/C18/%s), probed through calculate_bulk_density" % e["file"],
+                         "input": {"system": e["name"], "entry_point": e["entry"], "grid": e["grid"], "segments": e["segments"]},
+                         "specified_N_(probed)": got, "N_of_the_returned_initial_profile": want,
+                         "probe": {"rho_b": e["rho_b"], "z": e["z"], "calculate_bulk_density": e["probe"]},
+                         "property": "a stationary point then contains the wrong number of particles: C18_total_moles_from_profile_preserved needs the "
+                                     "specification of the INITIAL profile"}, found_input=bool(numeric_bad))
+        else:
+            V.violation(ctx, "gen/C18/%s does not compile: %s" % (e["file"], V.coq_error(r["out"]) or r["out"][-300:]),
+                        {"broken": "correspondence: entry point goals", "coq_error": V.coq_error(r["out"])}, found_input=False)
+    if impl.get("entry_cases"):
+        e = impl["entry_cases"][1 % len(impl["entry_cases"])]
+        samples.append({"entry_point": {k: e[k] for k in ("name", "entry", "kind", "grid", "N_of_initial_profile", "N_probed")}})
+
+    # ------------------------------------------------------------------ write-back of the bulk state (component index)
+    r = out_of("bulk.v")
+    ft = failed_tags(r["out"])
+    bulk_goals = [s for s in solves if s["result"] == "Ok" and s["spec_kind"] == 0]
+    n_w = sum(len(s["comp_after"]) for s in bulk_goals)
+    obligations += n_w
+    if r["rc"] == 0:
+        discharged += n_w
+    elif ft:
+        discharged += n_w - len(ft)
+        for sid in sorted(set(t // 16 for t in ft)):
+            s = by_id[sid]
+            V.violation(ctx, "the bulk state stored in the profile after a successful solve with the default specification is %s, the model "
+                        "(read per segment, write back through the component index %s) gives %s (%s, chain %s)"
+                        % (s["comp_after"], s["component_index"], s["comp_before"], s["system"], s["chain"]),
+                        {"broken": "correspondence: SpecC18.write_back / bulk_roundtrip vs DFTProfile::solve (gen/C18/bulk.v)", "input": solve_key(s),
+                         "component_index": s["component_index"], "partial_density_before": s["comp_before"], "partial_density_after": s["comp_after"],
+                         "residual_of_returned_profile": (s.get("after") or {}).get("res_norm")}, found_input=True)
+    else:
+        V.violation(ctx, "gen/C18/bulk.v does not compile: %s" % (V.coq_error(r["out"]) or r["out"][-300:]),
+                    {"broken": "correspondence: bulk write-back goals", "coq_error": V.coq_error(r["out"])}, found_input=False)
+
     # ------------------------------------------------------------------ Part C: replay of the solver logs
     r = out_of("replay.v")
     tags = V.tagged(r["out"])
@@ -251,6 +313,16 @@ def run(ctx):
     not_converged = []
     for s in solves:
         key = solve_key(s)
+        # the particle number an entry point fixed (probed before the solve) is that of the initial profile it returned
+        pr = vec(s.get("spec_N_probed"))
+        if pr and s["spec_kind"] in (1, 2):
+            want = vec(s["spec_N"])
+            if len(pr) != len(want) or any(not abs(a - b) <= ENTRY_RTOL * abs(b) for a, b in zip(pr, want)):
+                V.violation(ctx, "%s on %s fixes N = %s, but the initial profile it returns contains %s particles (solve then returned %s with %s particles)"
+                            % (s.get("entry"), s["system"], pr, want, s["result"], [sum(vec(s["moles_seg"]))] if s["spec_kind"] == 2 else s["moles_seg"]),
+                            {"broken": "implementation: the entry point does not fix the particle number of its initial profile", "input": key,
+                             "specified_N_(probed)": pr, "N_of_the_initial_profile": want, "result": s["result"], "moles_after": s["moles_seg"],
+                             "obs": s["obs"]}, found_input=True)
         if s["result"] != "Ok":
             if s["stages"] and s["stages"][-1]["max_iter"] >= 50 and not s["debug"]:
                 not_converged.append({"input": key, "result": s["result"], "error": s["error"][:80]})
@@ -342,6 +414,30 @@ def run(ctx):
                              "observable": name, "values": [{"chain": c, "value": v} for v, c in vals], "rtol": rtol}, found_input=True)
         samples.append({"observables": {"system": system, "chains": [s["chain"] for s in ss], "obs": [s["obs"] for s in ss][:3]}})
 
+    # the surface tension of one planar system must not depend on the initial profile (tanh / pDGT) or on the specification
+    cross = {}
+    for s in solves:
+        g = (s["obs"] or {}).get("surface_tension")
+        if s["result"] == "Ok" and not s["debug"] and isinstance(g, (int, float)) and s["tol_last"] is not None and s["tol_last"] <= TIGHT_TOL \
+                and "flag logic" not in s["system"]:
+            cross.setdefault(s["system"], []).append((g, s))
+    cross_worst = 0.0
+    for system, vals in cross.items():
+        if len(vals) < 2:
+            continue
+        obs_cmp += 1
+        lo, hi = min(vals, key=lambda x: x[0]), max(vals, key=lambda x: x[0])
+        rel = (hi[0] - lo[0]) / max(abs(hi[0]), abs(lo[0]))
+        cross_worst = max(cross_worst, rel)
+        if not rel <= CROSS_RTOL:
+            V.violation(ctx, "surface tension of %s depends on the initial profile / specification / chain: %r (%s, %s) vs %r (%s, %s), relative %.2e > %.0e"
+                        % (system, lo[0], lo[1].get("entry"), lo[1]["chain"], hi[0], hi[1].get("entry"), hi[1]["chain"], rel, CROSS_RTOL),
+                        {"broken": "implementation: path-independent observable differs between initial profiles / specifications", "system": system,
+                         "values": [{"entry_point": x.get("entry"), "specification": solve_key(x)["specification"], "chain": x["chain"], "surface_tension": v,
+                                     "particles": x["moles_seg"]} for v, x in vals], "rtol": CROSS_RTOL,
+                         "input": solve_key(lo[1] if abs(lo[0]) < abs(hi[0]) else hi[1])}, found_input=True)
+    obs_worst["surface_tension_across_starts_and_specifications"] = cross_worst
+
     spec_solves = [s for s in solves if s["spec_kind"] in (1, 2)]
     cov = {
         "obligations": obligations,
@@ -355,15 +451,20 @@ def run(ctx):
         "axioms_reported": lib["axioms"],
         "calculate_bulk_density_goals": n_a,
         "small_profile_goals": n_b,
+        "entry_point_goals": n_e,
+        "entry_points": [{"name": e["name"], "entry": e["entry"], "grid": e["grid"], "segments": e["segments"]} for e in impl.get("entry_cases", [])],
+        "bulk_write_back_goals": n_w,
+        "systems": sorted(set(s["system"] for s in solves)),
         "small_profiles": [{"name": e["name"], "geometry": e["geometry"], "segments": e["segments"], "grid": e["grid"]} for e in impl["el_cases"]],
         "solves": len(solves),
         "solves_replayed_in_coq": n_replayed,
         "solves_without_log_(stage_error)": unreplayable,
         "successful_solves_checked": n_ok,
         "particle_number_specification_solves": {"total": len(spec_solves), "ok": sum(1 for s in spec_solves if s["result"] == "Ok")},
-        "reduced_temperatures": impl.get("taus"),
+        "reduced_temperatures": {"pcsaft propane": impl.get("taus"), "pets argon": impl.get("taus_pets")},
         "tolerances": {"residual_after_vs_tol": "< tol*(1+%g)" % RES_AFTER_SLACK, "bulk_unchanged_rel": BULK_RTOL,
-                       "moles": "proved bound * (1+%g) + %g N" % (MOLES_SLACK, MOLES_WALL), "observables_rel": OBS_RTOL,
+                       "moles": "proved bound * (1+%g) + %g N" % (MOLES_SLACK, MOLES_WALL), "observables_rel": OBS_RTOL, "surface_tension_across_starts_and_specifications_rel": CROSS_RTOL,
+                       "entry_point_particle_number_rel": ENTRY_RTOL,
                        "interval goals": "calc_bulk 1e-13 rel; res_bulk 1e-9 of (|rho_b|+|target|); res_norm 1e-8 rel; moles 1e-12 rel"},
         "worst_observed": worst,
         "observable_comparisons": obs_cmp,
@@ -373,8 +474,11 @@ def run(ctx):
             "what": "that the iteration reaches the stopping test, positivity/finiteness of the iterates, agreement of observables between chains"},
         "samples": samples[:12],
         "rule": "3 specification variants x random inputs (calculate_bulk_density); 3 variants x small profiles (residual, norm, moles); "
-                "every real solve replayed in the model; planar PC-SAFT interfaces at seeded T/Tc in [0.5,0.95], one slit pore, "
-                "3-4 solver chains each, particle-number specifications, 14 flag-logic chains",
+                "every real solve replayed in the model; planar interfaces (PC-SAFT propane at seeded T/Tc in [0.5,0.95], PeTS argon at "
+                "T/Tc in [0.85,0.95] (thorough: whole range, butane, gc-PC-SAFT), gc-PC-SAFT propane+butane mixture), tanh and pDGT starts "
+                "with and without fixed equimolar surface on the same box, slit pores (PC-SAFT propane; gc-PC-SAFT propane+butane: 7 "
+                "segments in 2 components), previous solution as start, 2-4 solver chains each, particle-number specifications, "
+                "14 flag-logic chains; specification objects of the entry points probed on small grids",
     }
     V.write_evidence(ctx, "proof", cov, [
         "the functional derivative, convolver and bond integrals are abstracted to an arbitrary Boltzmann factor e(i,g); theorems quantify over it",
